@@ -60,8 +60,13 @@ def main():
             json.dump(old, f, indent=1)
         print("confirmation refreshed")
         return
-    if skip_confirm and os.path.exists(os.path.join(dst, "meta.json")):
-        meta["confirmed"] = json.load(open(os.path.join(dst, "meta.json"))).get("confirmed", {})      # confirmed in an earlier run
+    if os.path.exists(os.path.join(dst, "meta.json")):
+        old_meta = json.load(open(os.path.join(dst, "meta.json")))
+        if skip_confirm:
+            meta["confirmed"] = old_meta.get("confirmed", {})      # confirmed in an earlier run
+        # keep what earlier runs found (a change that was missed first and is caught now stays visible)
+        if old_meta.get("checks"):
+            meta["earlier_runs"] = old_meta.get("earlier_runs", []) + [{p: {"exit": c["exit"], "violations": c.get("violations")} for p, c in old_meta["checks"].items()}]
     shutil.rmtree(dst, ignore_errors=True)
     shutil.copytree(mdir, dst)
     # 4. run the checks against the change.  Default: applied to /repo itself and undone afterwards.
